@@ -122,7 +122,8 @@ def ctparse(
             txt = _preprocess_string(txt)
             labels = _get_labels(txt)
             txt = re.sub('#[a-zA-Z0-9_-]+', '', txt).strip()
-            subject = txt
+            # the words of the text, as on the path where something was found
+            subject = ' '.join(w for w in re.split(r'[\s-]+', txt) if w)
             return CTParse(None, None, None, subject, labels)
         parsed_list.sort(key=lambda p: p.score)  # type: ignore
         return parsed_list[-1]
@@ -234,7 +235,7 @@ def _ctparse(
         raw = re.split(r'[\s-]+', txt)
 
         # subject = list(set(raw) - set(matches)) # doesn't preserve order, but more efficient
-        subject = [i for i in raw if i not in regex_matches]
+        subject = [i for i in raw if i and i not in regex_matches]
         subject = ' '.join(subject)
         # ===========================================================
 
